@@ -147,20 +147,23 @@ def compile(
         pdk = default()
     elif isinstance(pdk, str):
         # Grab by-name from our registered names-dict
-        pdk = _mgr.names.get(pdk, None)
+        name, pdk = pdk, _mgr.names.get(pdk, None)
         if pdk is None:
-            msg = f"No PDK named {pdk}"
+            msg = f"No PDK named {name}. Registered PDKs: {sorted(_mgr.names)}"
             raise RuntimeError(msg)
     elif isinstance(pdk, ModuleType):
-        # Ensure that `pdk` is registered and checked as a valid PDK module
-        register(pdk)
+        # Check that `pdk` can be used as a PDK module.
+        # Note it is *not* registered: naming a PDK for one call does not change which ones `compile` and `default` choose among.
+        # (PDK packages commonly register an inner module of theirs; the package itself would count as a second PDK.)
+        if not hasattr(pdk, "compile"):
+            raise TypeError(f"PDK module {pdk} must have a compile() method")
 
     if pdk is None:  # Check for no-default-available cases
         if not len(_mgr.modules):
             raise RuntimeError("No PDK modules registered")
 
         msg = f"Multiple ({len(_mgr.modules)}) PDK modules registered: [\n"
-        for m in _mgr.modules:
+        for m in sorted(_mgr.modules, key=lambda m: m.__name__):
             msg += "\t" + str(m) + "\n"
         msg += "] \n"
         msg += f"Set one as the default via `hdl21.pdk.set_default()` (or remove all others) to use `h.pdk.compile()`."
@@ -174,14 +177,15 @@ def set_default(to: Union[ModuleType, str]) -> None:
     """Set the default PDK to use when no PDK is specified in a `hdl21.Generator`"""
 
     if isinstance(to, str):
-        to = _mgr.names.get(to, None)
+        name, to = to, _mgr.names.get(to, None)
         if to is None:
-            raise RuntimeError(f"No PDK named {to} registered")
+            msg = f"No PDK named {name} registered. Registered PDKs: {sorted(_mgr.names)}"
+            raise RuntimeError(msg)
     elif isinstance(to, ModuleType):
         if to not in _mgr.modules:
             raise RuntimeError(f"No PDK named {to} registered")
     else:
-        raise TypeError
+        raise TypeError(f"Invalid PDK {to}: must be a registered PDK module or its name")
 
     # Checks out; set as our default
     _mgr.default = to
